@@ -47,6 +47,7 @@ type Config struct {
 	AssumeLoops   map[string]bool // loops whose unwinding failure is pruned by assumption (spin loops)
 	Rounds        int
 	VisAll        bool // every heap access is a scheduling point (race mode)
+	Race          bool // record heap accesses inside VxPar and emit the data-race obligation
 	NoResize      map[int]bool // resize hints (0 grow, 1 shrink, 2 clear) excluded from this instance by assumption
 	SmallTables   int  // >0: constructors build tables of this many root buckets instead of 32
 	MaxDepth      int
@@ -142,6 +143,9 @@ func NewExec(prog *ssa.Program, cfg Config) *Exec {
 	if cfg.MaxDepth == 0 {
 		cfg.MaxDepth = 120
 	}
+	if cfg.SmallTables == 0 {
+		cfg.SmallTables = 1 // constructors build 1-root-bucket tables (stated bound)
+	}
 	if cfg.Unwind == nil {
 		cfg.Unwind = map[string]int{}
 	}
@@ -168,6 +172,9 @@ func NewExec(prog *ssa.Program, cfg Config) *Exec {
 		strIDs:  map[string]int{"": 0}, strByID: map[int]string{0: ""},
 		instrIDs: map[ssa.Instruction]int{}, instrKeys: map[ssa.Instruction]string{}, fnInfos: map[*ssa.Function]*fnInfo{},
 		FuncsEncoded: map[string]string{}, initDone: map[*ssa.Package]bool{},
+	}
+	if cfg.Race {
+		x.race = &raceState{}
 	}
 	x.cells = append(x.cells, nil) // address 0 = nil
 	x.cellT = append(x.cellT, nil)
